@@ -382,13 +382,16 @@ def np_dtype(name, strenc):
     return np.dtype(name)
 
 
-def _fill(grp, node, fmt, strenc, data):
-    import zarr
-
+def _fill(grp, node, fmt, strenc, data, be=None, prefix=""):
+    """`be`: None | "all" | list of array paths stored with NON-NATIVE (big-endian) byte order; only
+    zarr format 2 keeps the byte order in the dtype (format 3 normalises it into a codec)"""
     for name, ch in node["g"]:
+        path = f"{prefix}{name}"
         if "a" in ch:
             dt, sh = ch["a"]
             npdt = np_dtype(dt, strenc)
+            if fmt == 2 and be is not None and (be == "all" or path in be) and npdt.kind in "iufcU" and npdt.itemsize > 1:
+                npdt = npdt.newbyteorder(">")
             arr = grp.create_array(name, shape=tuple(sh), dtype=npdt, chunks=tuple(max(1, x) for x in sh) or "auto")
             if data and all(x > 0 for x in sh):
                 if dt == "str":
@@ -400,7 +403,7 @@ def _fill(grp, node, fmt, strenc, data):
                 else:
                     arr[...] = (np.arange(int(np.prod(sh)), dtype="int64").reshape(tuple(sh)) % 5).astype(npdt)
         else:
-            _fill(grp.create_group(name), ch, fmt, strenc, data)
+            _fill(grp.create_group(name), ch, fmt, strenc, data, be, path + "/")
 
 
 def build(t, tmpdir=None, data=False):
@@ -452,14 +455,10 @@ def build(t, tmpdir=None, data=False):
         g = zarr.open_group(dest, mode="w", zarr_format=fmt)
         if t["attrs"]:
             g.attrs.update(t["attrs"])
-        _fill(g, root, fmt, strenc, data)
-        if t.get("be_node_ids") and fmt == 2:
-            # the same node ids stored big-endian (zarr format 2 keeps the byte order in the dtype)
-            nid = get_path(root, ["nodes", "ids"])
-            if is_array(nid) and nid["a"][0] in INTS and nid["a"][0] not in ("int8", "uint8"):
-                del g["nodes/ids"]
-                g["nodes"].create_array("ids", shape=tuple(nid["a"][1]), dtype=np.dtype(nid["a"][0]).newbyteorder(">"),
-                                        chunks=tuple(max(1, x) for x in nid["a"][1]) or "auto")
+        be = t.get("be")
+        if t.get("be_node_ids"):
+            be = ["nodes/ids"]
+        _fill(g, root, fmt, strenc, data, be)
     if t.get("corrupt_doc") and mem is not None and kind == "memory":
         from zarr.core.buffer.cpu import Buffer
 
@@ -903,6 +902,67 @@ def corrupt_documents():
     return out
 
 
+def array_paths(root):
+    return ["/".join(p) for p in all_paths(root) if p and is_array(get_path(root, p))]
+
+
+def paired_id_faults():
+    """the same-dtype requirement correlates nodes/ids and edges/ids: every single fault of one id array
+    paired with the matching fault of the other (same dtype for the whole dtype alphabet, same rank change)"""
+    out = []
+    bs = bases()
+    for bname in ("typical", "minimal", "empty-graph", "no-axes"):
+        root, attrs = bs[bname]
+        nid, eid = get_path(root, ["nodes", "ids"])["a"], get_path(root, ["edges", "ids"])["a"]
+        for d in ALL_DTYPES:
+            r = set_path(set_path(root, ("nodes", "ids"), A(d, nid[1])), ("edges", "ids"), A(d, eid[1]))
+            for fmt in (2, 3):
+                out.append((f"paired-ids|{bname}|both-dtype-{d}", target(r, attrs, fmt, strenc=("fixed" if fmt == 2 else "vlen"))))
+        shapes = {"rank+1": (nid[1] + [1], eid[1] + [1]), "rank+1(2)": (nid[1] + [2], eid[1] + [2]), "0d": ([], []),
+                  "swapped-ranks": (eid[1], nid[1]), "len+1": ([nid[1][0] + 1], [eid[1][0] + 1, 2]),
+                  "rank-1": ([], [eid[1][0]]), "both-2d": ([nid[1][0], 2], eid[1]), "both-1d": (nid[1], [eid[1][0]])}
+        for lab, (ns, es) in shapes.items():
+            for d in (nid[0], "bool", "float64"):
+                r = set_path(set_path(root, ("nodes", "ids"), A(d, ns)), ("edges", "ids"), A(d, es))
+                out.append((f"paired-ids|{bname}|both-shape-{lab}-{d}", target(r, attrs, 2 + len(lab) % 2)))
+        for lab, fn in (("delete", lambda r, p: set_path(r, p, None)), ("array->group", lambda r, p: set_path(r, p, G()))):
+            r = fn(fn(root, ("nodes", "ids")), ("edges", "ids"))
+            out.append((f"paired-ids|{bname}|both-{lab}", target(r, attrs, 2)))
+    return out
+
+
+def byte_order_variants():
+    """zarr format 2 keeps the byte order in the dtype: the same (conformant or faulty) store with
+    non-native byte order for all arrays, for the properties only, for the ids only and for every
+    single array; conformance does not depend on it"""
+    out = []
+    bs = bases()
+    for bname, (root, attrs) in bs.items():
+        paths = array_paths(root)
+        if not paths:
+            continue
+        props = [p for p in paths if "/props/" in p]
+        for strenc in ("vlen", "fixed"):
+            out.append((f"byte-order|{bname}|all-big-endian", target(root, attrs, 2, strenc=strenc, be="all")))
+        if props:
+            out.append((f"byte-order|{bname}|props-big-endian", target(root, attrs, 2, be=props)))
+        out.append((f"byte-order|{bname}|ids-big-endian", target(root, attrs, 2, be=["nodes/ids", "edges/ids"])))
+        out.append((f"byte-order|{bname}|edge-ids-big-endian", target(root, attrs, 2, be=["edges/ids"])))
+        if bname in ("typical", "empty-graph"):
+            for p in paths:
+                out.append((f"byte-order|{bname}|only:{p}", target(root, attrs, 2, be=[p])))
+        # byte order on top of faults: the verdict is that of the fault
+        tf = tree_faults(root)
+        for k, (lab, r) in enumerate(tf):
+            if k % 17 == 0:
+                out.append((f"byte-order|{bname}|all-big-endian+{lab}", target(r, attrs, 2, be="all")))
+    # every stated dtype stored big-endian, fixed and variable-length
+    for stated in VALID_STATED:
+        root, attrs = make_base(2, 1, [("p", stated, "masked"), ("m", stated, "2d")], [("q", stated, "varlen-masked")], None)
+        out.append((f"byte-order|stated-{stated}|all-big-endian", target(root, attrs, 2, strenc="fixed", be="all")))
+    return out
+
+
 def random_conformant(rng):
     """random conformant store (all conformant variants: dtypes, ranks, masks, var-length, axes)"""
     n, e = rng.choice((0, 1, 2, 5)), rng.choice((0, 1, 3))
@@ -914,7 +974,12 @@ def random_conformant(rng):
     root, attrs = make_base(n, e, nprops, eprops, axes, id_dtype=rng.choice(INTS),
                             node_group=bool(nprops) or rng.random() < 0.5,
                             edge_group=bool(eprops) or rng.random() < 0.5)
-    return target(root, attrs, rng.choice((2, 3)), strenc=rng.choice(("vlen", "fixed")))
+    fmt = rng.choice((2, 3))
+    be = None
+    if fmt == 2 and rng.random() < 0.5:
+        paths = array_paths(root)
+        be = "all" if rng.random() < 0.4 else rng.sample(paths, rng.randint(1, len(paths)))
+    return target(root, attrs, fmt, strenc=rng.choice(("vlen", "fixed")), **({"be": be} if be else {}))
 
 
 # ============================================================ model request
@@ -992,6 +1057,11 @@ def run(ck: common.Check):
     sv = store_variants()
     cases += sv
     ck.extra["store_variants"] = len(sv)
+    pf = paired_id_faults()
+    bo = byte_order_variants()
+    cases += pf + bo
+    ck.extra["paired_id_faults"] = len(pf)
+    ck.extra["byte_order_variants"] = len(bo)
     cd = corrupt_documents()
     cases += cd
     ck.extra["corrupt_zarr_documents(exploration, no model)"] = len(cd)
